@@ -43,6 +43,18 @@ CLAIMS = {
          "Decides the structural necessary conditions of 'signatures survive migration/export/either backend': slot map updated with every append or rebuilt after replacement; migration propagates every Token/Decode/import error and requires the array and its closing bracket; gob encodes and decodes the same static type; export, JSON store and migration agree on the array key; the save is temp→encode→Sync→Close→Rename.",
          "Field-for-field round-trip equality through gob/JSON is a runtime property and is not decided.",
          "DESIGN.md §4 C18"),
+ "C16": ("must-pass-through over the per-file worker's success returns (every error-returning step and the size test), recover-handler effect census in goroutine bodies, edge-cut for strict mode, guard census of the function enumerator, closed-world census of the file collector's decision atoms",
+         "Decides the structural conditions of 'nothing escapes analysis': a file result without an error message only when every step succeeded; panics in per-file goroutines become that file's error and raise the flag (check) or a diagnostic (scan); strict ∧ flag ⇒ no success return; the enumerator covers functions, all methods, closures on every non-skipped path and skips synthetic functions only when they are not range-over-func bodies; the collector's decisions use only the enumerated exclusion atoms; size tests precede bounded reads.",
+         "The walk predicate's value on every file name and build-constraint exclusions are not decided.",
+         "DESIGN.md §4 C16"),
+ "C09": ("must-pass-through and coupled-update rules over the function matcher (mark sets), single-writer census and mirrored-update check of the zipper maps, provenance of summary counters, guard census of the divergence pass",
+         "Decides the partition mechanism for every input: every pairing marks both sides, rename pairings only between unused functions, leftovers only from unmarked functions, zipper maps written in lockstep by one function and only for unmapped instructions, summary counters are len() of the lists whose entries carry that status, Added/Removed operation lists are exactly the unmapped (non-virtualised) instructions.",
+         "Uniqueness of short names and maximality of the matching are not decided.",
+         "DESIGN.md §4 C09"),
+ "C19": ("must-pass-through for candidate creation (similarity >= threshold) and for the 'renamed' status (exactly the not-by-name edge), shared one-to-one rules of C09, forbidden-read census (names, positions, Signature.String) and self-reference replacement check on the similarity's inputs",
+         "Decides the structural half of rename recognition: candidates only at or above the threshold, computed by the structural similarity; pairings one-to-one; 'renamed' stored exactly for pairs not matched by name; the topology that feeds the similarity reads no name of the analysed function (callee names only, self-calls replaced by a name-free token). Symmetry, range and the value 1 of the similarity, and the optimality of greedy pairing are numeric/runtime properties and are listed as not decided.",
+         "Numeric properties of TopologySimilarity are out of reach of this technique here and not claimed.",
+         "DESIGN.md §4 C19"),
 }
 
 PENDING_REASON = "static check for this property is not armed yet in this revision of the machinery (see DESIGN.md §4 for the planned structural clauses); not claimed until its rules run silent on the tree and fire on their mutants"
